@@ -65,7 +65,7 @@ func frameOf(p *harness.Pkg, stack string) string { return sim.PanicFrame(stack,
 func (w *worker) runC09(p *harness.Pkg, t *tape.Tape, logOn bool) *verdict {
 	ops := usableOps(p)
 	plan := drawBase(t, p)
-	config := t.Choose(3, "config") // 0 fault-free single caller, 1/2 data-preserving faults + concurrency
+	config := t.Choose(4, "config") // 0 fault-free single caller, 1/2 data-preserving faults + concurrency, 3 in-process LocalClient-style transport
 	n := 1
 	if config != 0 {
 		n = 1 + t.Choose(4, "callers")
@@ -80,10 +80,13 @@ func (w *worker) runC09(p *harness.Pkg, t *tape.Tape, logOn bool) *verdict {
 	for i := 0; i < n; i++ {
 		rp := drawReq(t, p, ops, i)
 		rp.NoEmpty = validate && t.Choose(2, "wire-validity-domain") == 0
-		if config != 0 {
+		if config == 1 || config == 2 {
 			rp.Faults.ReqCutMode = t.Choose(5, "req-cut")
 			rp.Faults.RespCutMode = t.Choose(5, "resp-cut")
 			rp.Faults.Dup = t.Flip(1, 6, "dup")
+		}
+		if config == 3 {
+			rp.Local, rp.NoEmpty = true, false
 		}
 		plan.Reqs = append(plan.Reqs, rp)
 	}
@@ -309,7 +312,7 @@ var _ = url.Parse
 func (w *worker) runC10(p *harness.Pkg, t *tape.Tape, logOn bool) *verdict {
 	ops := usableOps(p)
 	plan := drawBase(t, p)
-	config := t.Choose(4, "config") // 0 fault-free, 1 data-preserving, 2 intermediary, 3 truncation
+	config := t.Choose(5, "config") // 0 fault-free, 1 data-preserving, 2 intermediary, 3 truncation, 4 in-process LocalClient-style transport
 	n := 1
 	if config != 0 {
 		n = 1 + t.Choose(3, "callers")
@@ -333,6 +336,12 @@ func (w *worker) runC10(p *harness.Pkg, t *tape.Tape, logOn bool) *verdict {
 			rp.Faults.RespTruncate = true
 			rp.Faults.ErrWithData = t.Choose(2, "err-with-data") == 1
 			rp.Faults.RespCutMode = t.Choose(5, "resp-cut")
+		case 4:
+			rp.Local = true
+			// without a wire, statuses that forbid a body on the wire still carry one: 204/304 become usable default codes
+			if k := t.Choose(4, "local-default-code"); k > 0 && !p.Ops[rp.Op].DocCodes[[]int{0, 204, 304, 205}[k]] {
+				rp.DefaultCode = []int{0, 204, 304, 205}[k]
+			}
 		}
 		plan.Reqs = append(plan.Reqs, rp)
 	}
@@ -390,7 +399,7 @@ func judgeC10(v *verdict, p *harness.Pkg, op *harness.Op, rp *harness.ReqPlan, o
 		return
 	}
 	switch config {
-	case 0, 1:
+	case 0, 1, 4:
 		switch {
 		case o.ClientErr != "":
 			v.violate("resp:"+statusClass(o.PlannedType)+":client-"+errClass(o.ClientErr), fmt.Sprintf("handler returned %s %s; client error: %s", o.PlannedType, clipStr(o.Planned, 300), o.ClientErr), exp)
